@@ -15,7 +15,7 @@ FUNCTIONS = ["pox.openflow.libopenflow_01: pack/unpack/unpack_new/__len__/__eq__
              "_read/_unpack/_skip/_readzs/_readether/_readip/_packzs", "pox.lib.addresses.EthAddr/IPAddr raw paths"]
 BOUNDS = {}
 OUTSIDE = ["lists longer than the stated bounds", "payloads longer than the stated lengths", "the 64 KiB total-length boundary",
-           "symbolic characters in string fields (strings are concrete per case)", "Nicira extensions (separate obligation O4 when present)"]
+           "symbolic characters in string fields (strings are concrete per case)", "nx_action_bundle, nx_action_learn / flow_mod_spec, nx_flow_mod and nxt_packet_in (composite Nicira structures)", "IPv6-valued NXM fields"]
 ASSUMPTIONS = ["struct.pack/unpack modelled bit-precisely by symx.shims.StructShim (validated against the real module)",
                "ofp_match objects inside other messages are built through the public attribute setters with prerequisites met "
                "(dl_type=0x0800, nw_proto=6) or left fully wildcarded; the free-form match is covered by obligation O3"]
@@ -431,6 +431,136 @@ def h_match(ctx, flow_mod, tied=False):
   ctx.witness('match')
 
 
+# ---- O4: Nicira extensions ----------------------------------------------------------------------------
+NX_ACTIONS = {
+  # class name: (fields {attr: (lo, hi)}, class-valued fields {attr: NXM class name}, expected body length)
+  'nx_output_reg': (dict(offset=(0, 1023), nbits=(1, 64), max_len=(0, 0xffff)), dict(reg='NXM_NX_REG0'), 16),
+  'nx_reg_move': (dict(nbits=(0, 0xffff), dst_ofs=(0, 0xffff), src_ofs=(0, 0xffff)), dict(dst='NXM_NX_REG1', src='NXM_OF_ETH_DST'), 16),
+  'nx_reg_load': (dict(offset=(0, 1023), nbits=(1, 64), value=(0, (1 << 64) - 1)), dict(dst='NXM_NX_TUN_ID'), 16),
+  'nx_action_controller': (dict(max_len=(0, 0xffff), controller_id=(0, 0xffff), reason=(0, 255)), {}, 8),
+  'nx_action_push_mpls': (dict(ethertype=(0, 0xffff)), {}, 8),
+  'nx_action_pop_mpls': (dict(ethertype=(0, 0xffff)), {}, 8),
+  'nx_action_mpls_label': (dict(label=(0, 0xffffffff)), {}, 8),
+  'nx_action_mpls_tc': (dict(tc=(0, 255)), {}, 8),
+  'nx_action_resubmit': (dict(in_port=(0, 0xffff), table=(0, 255)), {}, 8),
+  'nx_action_set_tunnel': (dict(tun_id=(0, 0xffffffff)), {}, 8),
+  'nx_action_set_tunnel64': (dict(tun_id=(0, (1 << 64) - 1)), {}, 16),
+  'nx_action_fin_timeout': (dict(fin_idle_timeout=(0, 0xffff), fin_hard_timeout=(0, 0xffff)), {}, 8),
+  'nx_action_exit': ({}, {}, 8),
+  'nx_action_dec_ttl': ({}, {}, 8),
+}
+
+NXM_FIELDS = [  # (class name, value bytes, maskable, kind)
+  ('NXM_OF_IN_PORT', 2, False, 'int'), ('NXM_OF_ETH_DST', 6, True, 'eth'), ('NXM_OF_ETH_SRC', 6, True, 'eth'), ('NXM_OF_ETH_TYPE', 2, False, 'int'),
+  ('NXM_OF_VLAN_TCI', 2, True, 'int'), ('NXM_OF_IP_TOS', 1, True, 'int'), ('NXM_OF_IP_PROTO', 1, True, 'int'), ('NXM_OF_IP_SRC', 4, True, 'ip'),
+  ('NXM_OF_IP_DST', 4, True, 'ip'), ('NXM_OF_TCP_SRC', 2, True, 'int'), ('NXM_OF_TCP_DST', 2, True, 'int'), ('NXM_OF_UDP_SRC', 2, True, 'int'),
+  ('NXM_OF_UDP_DST', 2, True, 'int'), ('NXM_OF_ICMP_TYPE', 1, False, 'int'), ('NXM_OF_ICMP_CODE', 1, False, 'int'), ('NXM_OF_ARP_OP', 2, False, 'int'),
+  ('NXM_OF_ARP_SPA', 4, True, 'ip'), ('NXM_OF_ARP_TPA', 4, True, 'ip'), ('NXM_NX_REG0', 4, True, 'int'), ('NXM_NX_REG3', 4, True, 'int'),
+  ('NXM_NX_TUN_ID', 8, True, 'int'), ('NXM_NX_ARP_SHA', 6, False, 'eth'), ('NXM_NX_ARP_THA', 6, False, 'eth'), ('NXM_NX_ICMPV6_TYPE', 1, False, 'int'),
+  ('NXM_NX_IP_FRAG', 1, True, 'int'), ('NXM_NX_IPV6_LABEL', 4, False, 'int'), ('NXM_NX_IP_ECN', 1, False, 'int'), ('NXM_NX_IP_TTL', 1, False, 'int'),
+  ('NXM_NX_COOKIE', 8, True, 'int'), ('NXM_NX_TCP_FLAGS', 2, True, 'int'), ('NXM_NX_TUN_IPV4_SRC', 4, True, 'ip'),
+]
+
+
+def h_nx_action(ctx, name):
+  """Nicira vendor actions: header (type 0xffff, len, vendor 0x2320, subtype), length bookkeeping, decode == original, re-encode identical"""
+  from props import env
+  env.get_core()
+  nx = ctx.pox('pox.openflow.nicira'); of = ctx.pox('pox.openflow.libopenflow_01')
+  fields, clsfields, bodylen = NX_ACTIONS[name]
+  cls = getattr(nx, name)
+  o = cls()
+  vals = {}
+  for a, (lo, hi) in fields.items():
+    v = ctx.int(a, lo, hi); setattr(o, a, v); vals[a] = v
+  for a, cn in clsfields.items(): setattr(o, a, getattr(nx, cn))
+  if name == 'nx_action_resubmit': o.subtype = nx.NXAST_RESUBMIT_TABLE
+  b = o.pack()
+  ctx.check('len(pack) == len(obj)', len(b) == len(o))
+  ctx.check('total length as specified', len(b) == 8 + bodylen)
+  ctx.check('header: type, length, vendor, subtype', ctx.And(((b[0] << 8) | b[1]) == 0xffff, ((b[2] << 8) | b[3]) == len(b),
+            ((b[4] << 24) | (b[5] << 16) | (b[6] << 8) | b[7]) == 0x2320, ((b[8] << 8) | b[9]) == o.subtype))
+  o2 = cls()
+  off = o2.unpack(b, 0)
+  ctx.check('consumed', off == len(b))
+  ctx.check('equal', o2 == o)
+  for a, v in vals.items(): ctx.check('field %s survives' % a, getattr(o2, a) == v)
+  ctx.check('repack', _eq_bytes(ctx, o2.pack(), list(b)))
+  # and through the generic action-list decoder (as inside a flow_mod)
+  offs, acts = of._unpack_actions(b, len(b))
+  ctx.check('action list decoder consumes it', offs == len(b) and len(acts) == 1)
+  if len(acts) == 1: ctx.check('action list decoder re-encodes identically', _eq_bytes(ctx, acts[0].pack(), list(b)))
+  ctx.witness('roundtrip')
+
+
+def h_nxm(ctx, idx, masked):
+  from props import env
+  env.get_core()
+  nx = ctx.pox('pox.openflow.nicira'); addrs = ctx.pox('pox.lib.addresses')
+  name, n, maskable, kind = NXM_FIELDS[idx]
+  cls = getattr(nx, name)
+  raw = ctx.bytes('value', n)
+  mask = ctx.bytes('mask', n) if masked else None
+  if masked:
+    # OpenFlow/NXM requires value bits outside the mask to be zero
+    for v, m in zip(raw, mask): ctx.assume((v & (~m & 0xff)) == 0)
+  if name == 'NXM_NX_TCP_FLAGS':
+    ctx.assume((raw[0] & 0xf0) == 0)                    # documented: the top 4 bits of TCP flags value and mask must be zero
+    if masked: ctx.assume((mask[0] & 0xf0) == 0)
+  def conv(bs):
+    if kind == 'eth': return addrs.EthAddr(bs)
+    if kind == 'ip': return addrs.IPAddr(bs)
+    r = 0
+    for x in bs: r = (r << 8) | x
+    return r
+  e = cls(conv(raw), conv(mask) if masked else None) if masked else cls(conv(raw))
+  b = e.pack()
+  allones = masked and bool(ctx.And(*[(m == 255) for m in mask]))
+  has_mask = masked and not allones
+  hdr = (b[0] << 24) | (b[1] << 16) | (b[2] << 8) | b[3]
+  ctx.check('NXM header: type / has-mask bit / payload length', ctx.And((hdr >> 9) == cls._nxm_type, ((hdr >> 8) & 1) == (1 if has_mask else 0),
+            (hdr & 0xff) == (2 * n if has_mask else n)))
+  ctx.check('entry length', len(b) == 4 + (2 * n if has_mask else n))
+  ctx.check('value bytes', _eq_bytes(ctx, b[4:4 + n], list(raw)))
+  if has_mask: ctx.check('mask bytes', _eq_bytes(ctx, b[4 + n:], list(mask)))
+  off, e2 = nx.nxm_entry.unpack_new(b, 0)
+  ctx.check('consumed', off == len(b))
+  ctx.check('decoded class', type(e2) is cls)
+  ctx.check('repack', _eq_bytes(ctx, e2.pack(), list(b)))
+  ctx.check('decoded value', e2.value == e.value)
+  # inside an nx_match
+  m = nx.nx_match(); m.append(e); m.append(nx.NXM_OF_ETH_TYPE(0x0800) if name != 'NXM_OF_ETH_TYPE' else nx.NXM_OF_IN_PORT(3))
+  mb = m.pack()
+  m2 = nx.nx_match(); o2 = m2.unpack(mb, 0, len(mb))
+  ctx.check('nx_match consumed', o2 == len(mb))
+  ctx.check('nx_match repack', _eq_bytes(ctx, m2.pack(), list(mb)))
+  ctx.witness('roundtrip')
+
+
+def h_nx_msg(ctx, name):
+  from props import env
+  env.get_core()
+  nx = ctx.pox('pox.openflow.nicira'); of = ctx.pox('pox.openflow.libopenflow_01')
+  xid = ctx.int('xid', 0, 0xffffffff)
+  if name == 'nx_flow_mod_table_id': o = nx.nx_flow_mod_table_id(); o.enable = ctx.bool('enable')
+  elif name == 'nx_packet_in_format': o = nx.nx_packet_in_format(); o.format = ctx.int('format', 0, 0xffffffff)
+  elif name == 'nx_role_request': o = nx.nx_role_request(); o.role = ctx.int('role', 0, 0xffffffff)
+  elif name == 'nx_async_config':
+    o = nx.nx_async_config()
+    for a in ('packet_in_mask', 'port_status_mask', 'flow_removed_mask', 'packet_in_mask_slave', 'port_status_mask_slave', 'flow_removed_mask_slave'):
+      setattr(o, a, ctx.int(a, 0, 0xffffffff))
+  o.xid = xid
+  b = o.pack()
+  ctx.check('len(pack) == len(obj)', len(b) == len(o))
+  ctx.check('header: version, type VENDOR, length, xid, vendor id', ctx.And(b[0] == 1, b[1] == 4, ((b[2] << 8) | b[3]) == len(b),
+            ((b[4] << 24) | (b[5] << 16) | (b[6] << 8) | b[7]) == xid, ((b[8] << 24) | (b[9] << 16) | (b[10] << 8) | b[11]) == 0x2320))
+  off, o2 = type(o).unpack_new(b)
+  ctx.check('consumed', off == len(b))
+  ctx.check('equal', o2 == o)
+  ctx.check('repack', _eq_bytes(ctx, o2.pack(), list(b)))
+  ctx.witness('roundtrip')
+
+
 def obligations(tier):
   thorough = tier != 'quick'
   cases = []
@@ -473,6 +603,12 @@ def obligations(tier):
     Obligation('O2_statslists', h_stats_list, lcases, witnesses=('roundtrip',), desc='multi-entry stats reply lists'),
     Obligation('O1_unknown_stats', h_unknown_stats, [dict(n=0), dict(n=5)], witnesses=('roundtrip',),
                desc='stats request of an unregistered type: bytes -> generic container -> identical bytes'),
+    Obligation('O4_nx_actions', h_nx_action, [dict(name=k) for k in NX_ACTIONS], witnesses=('roundtrip',),
+               desc='Nicira vendor actions: header/length/subtype, decode == original, re-encode identical, also via the action-list decoder'),
+    Obligation('O4_nxm', h_nxm, [dict(idx=i, masked=mk) for i, f in enumerate(NXM_FIELDS) for mk in ((False, True) if f[2] and (thorough or i % 3 == 1) else (False,))],
+               witnesses=('roundtrip',), desc='NXM entries with and without mask: header type/has-mask/length, value and mask bytes, decode, nx_match round trip'),
+    Obligation('O4_nx_messages', h_nx_msg, [dict(name=k) for k in ('nx_flow_mod_table_id', 'nx_packet_in_format', 'nx_role_request', 'nx_async_config')],
+               witnesses=('roundtrip',), desc='Nicira vendor messages: header, vendor id, decode == original, re-encode identical'),
     Obligation('O3_match', h_match, [dict(flow_mod=False, tied=not thorough), dict(flow_mod=True, tied=not thorough)], witnesses=('match',), split=16,
                desc='ofp_match: all fields x all wildcard words vs spec layout with prerequisite zeroing; normal-form round trip'),
   ]
